@@ -595,6 +595,11 @@ func (e *Enc) checkPost(fr *frame, st *bstate, rs []Val, ret *ssa.Return) {
 		o := e.oblige(st, "post", fmt.Sprintf("%s@%s", label, e.anchor(ret.Pos(), "return")), t, ret.Pos())
 		if o != nil {
 			o.Detail = cl.Text
+			for _, rv := range rs {
+				if rv.Loc == nil && rv.T != "" {
+					o.ResTerms = append(o.ResTerms, rv.T)
+				}
+			}
 		}
 	}
 }
